@@ -138,6 +138,34 @@ def g_c16_portmap(repo, thorough=False):
                                                 'got_payload_hex': got.hex() if got is not None else r[0]}))
                         else:
                             out.append((True, {'obligation': name}))
+        # the same over TCP (first call of a validated flow): record mark with the last-fragment bit and a length equal to
+        # the reply that follows; a long IPv6 address makes the DUMP reply longer than 255 bytes
+        k = 0
+        for ip in C16_IPS + ['2001:db8:aaaa:bbbb:cccc:dddd:eeee:ffff']:
+            v6 = ':' in ip
+            src = '2001:db8::99' if v6 else '10.0.0.99'
+            for vers in (2, 3, 4):
+                for proc in (0, 3, 4, 9):
+                    k += 1
+                    sport = 42000 + k; port = 111
+                    xid = 0x33440000 | (vers << 8) | proc
+                    call = struct.pack('!IIIIIIIIII', xid, 0, 2, 100000, vers, proc, 0, 0, 0, 0)
+                    rec = struct.pack('!I', 0x80000000 | len(call)) + call
+                    ck = d.cookie(src, ip, sport, port)
+                    seg = R.tcp(sport, port, 1000, (ck + 1) & 0xffffffff, R.PSH | R.ACK, rec)
+                    fr = R.eth(R.MAC, R.PEER, 0x86dd if v6 else 0x0800, R.ip6(src, ip, 6, seg) if v6 else R.ip4(src, ip, 6, seg))
+                    r = d.frame(fr)
+                    got = None
+                    if r[0] == 'reply':
+                        got = r[1][14 + (40 if v6 else 20) + 20:]
+                    body = portmap_expected(xid, vers, proc, ip, port)
+                    exp = struct.pack('!I', 0x80000000 | len(body)) + body
+                    name = 'ground/C16/portmap-tcp/v%d/proc%d' % (vers, proc)
+                    if got != exp:
+                        out.append((False, {'obligation': name, 'dst_ip': ip, 'dst_port': port, 'version': vers, 'procedure': proc, 'transport': 'tcp',
+                                            'frame_hex': fr.hex(), 'expected_payload_hex': exp.hex(), 'got_payload_hex': got.hex() if got is not None else r[0]}))
+                    else:
+                        out.append((True, {'obligation': name}))
     finally:
         d.close()
     return out
